@@ -264,10 +264,12 @@ def canon(v, depth=0, limit=64):
         while i < limit and v.has_ind(i):
             out.append(canon(v.generated[i], depth + 1, limit))
             i += 1
-        if i >= limit:
+        if i >= limit and v.has_ind(limit):
             out.append(("...",))
         return ("l", tuple(out))
     if isinstance(v, (list, tuple)):
+        if len(v) > limit:  # same truncation as for lazy lists, so that the two representations stay comparable
+            return ("l", tuple(canon(x, depth + 1, limit) for x in v[:limit]) + (("...",),))
         return ("l", tuple(canon(x, depth + 1, limit) for x in v))
     if v is None:
         return ("none",)
